@@ -10,23 +10,29 @@ VARIABLES shp, cs
 vars == <<shp, cs>>
 Leaf(e) == IF e.t = "lit" THEN StrV(e.s) ELSE Dyn(e)
 \* the two settings u, v of the node under test
-Shapes == {Lit("x"), Ref("m"), Ref("zz"), Ref("s.v"), Ref("s.u"), ErrOp(Lit("m"), Lit("boom")), Def(Lit("s.v"), Lit("d"))}
+\* Ref("s"): the node refers to ITSELF - directly (an entry of s) or from inside a nested list / dictionary (kinds nlist, ndict)
+Shapes == {Lit("x"), Ref("m"), Ref("zz"), Ref("s.v"), Ref("s.u"), ErrOp(Lit("m"), Lit("boom")), Def(Lit("s.v"), Lit("d")), Ref("s")}
 NodeOf(kind, eu, ev) ==
   CASE kind = "mixed" -> N(("u" :> Leaf(eu)) @@ ("v" :> Leaf(ev)), <<StrV("e")>>)
     [] kind = "dict"  -> N(("u" :> Leaf(eu)) @@ ("v" :> Leaf(ev)), <<>>)
     [] kind = "list"  -> N(<<>>, <<Leaf(eu), Leaf(ev)>>)
     \* two names that differ only in letter case: distinct settings, visited in ONE order (C09)
     [] kind = "cased" -> N(("k" :> Leaf(eu)) @@ ("K" :> Leaf(ev)), <<>>)
+    \* a list whose only element is a list / a dictionary holding the two settings: s: [[u, v]], s: [{u: .., v: ..}]
+    [] kind = "nlist" -> N(<<>>, <<N(<<>>, <<Leaf(eu), Leaf(ev)>>)>>)
+    [] kind = "ndict" -> N(<<>>, <<N(("u" :> Leaf(eu)) @@ ("v" :> Leaf(ev)), <<>>)>>)
 \* p, q: two references to the node s (a diamond over a container); r, r2: a plain reference and a splice using t again
 World(kind, eu, ev, envs, res) ==
   [root |-> N(("s" :> NodeOf(kind, eu, ev)) @@ ("t" :> StrV("ok")) @@ ("p" :> Dyn(Ref("s"))) @@ ("q" :> Dyn(Ref("s")))
               @@ ("r" :> Dyn(Ref("t"))) @@ ("r2" :> Dyn(Cat(<<Lit("pre-"), Ref("t")>>))), <<>>), envs |-> envs, res |-> res]
-ReadNames(kind) == IF kind = "list" THEN <<"s.0", "s.1", "t">> ELSE IF kind = "cased" THEN <<"s.k", "s.K", "t">> ELSE <<"s.u", "s.v", "t">>
+ReadNames(kind) == CASE kind = "list" -> <<"s.0", "s.1", "t">> [] kind = "cased" -> <<"s.k", "s.K", "t">>
+                     [] kind = "nlist" -> <<"s.0.0", "s.0.1", "t">> [] kind = "ndict" -> <<"s.0.u", "s.0.v", "t">> [] OTHER -> <<"s.u", "s.v", "t">>
 \* ONE Unpack into a struct { R interface{}; R2 string; RR interface{} (again r); P, Q []interface{} or interface{} }:
 \* every field is the value of its setting, read for itself - using a name twice, or reaching a container along two
 \* paths, is no cycle
 StructFields(kind) == << [n |-> "r", t |-> "iface"], [n |-> "r2", t |-> "string"], [n |-> "r", t |-> "iface"],
-                         [n |-> "p", t |-> IF kind = "list" THEN "slice" ELSE "iface"], [n |-> "q", t |-> IF kind = "list" THEN "slice" ELSE "iface"] >>
+                         [n |-> "p", t |-> IF kind \in {"list", "nlist", "ndict"} THEN "slice" ELSE "iface"],
+                         [n |-> "q", t |-> IF kind \in {"list", "nlist", "ndict"} THEN "slice" ELSE "iface"] >>
 
 Exp(F(_)) == LET ideal == F({})
                  alts  == {[devs |-> DS, out |-> F(DS)] : DS \in DevSets}
@@ -57,10 +63,12 @@ E1 == N(("m" :> StrV("e1")), <<>>)
 R1 == ("m" :> "r1") @@ ("zz" :> "rz")
 Init == shp \in Shapes /\ cs = <<>>
 Next == /\ cs = <<>> /\ UNCHANGED shp
-        /\ \E kind \in {"mixed", "dict", "list", "cased"}, ev \in Shapes, envs \in {<<>>, <<E1>>}, res \in {<<>>, <<R1>>} :
+        /\ \E kind \in {"mixed", "dict", "list", "cased", "nlist", "ndict"}, ev \in Shapes, envs \in {<<>>, <<E1>>}, res \in {<<>>, <<R1>>} :
               cs' = <<kind, ev, envs, res>> /\ PrintT(ToJson(Case(kind, World(kind, shp, ev, envs, res))))
 View == <<shp, cs = <<>> >>
 TabMixed == ("s.u" :> <<NF("s"), NF("u")>>) @@ ("s.v" :> <<NF("s"), NF("v")>>) @@ ("s.0" :> <<NF("s"), IX(0)>>) @@ ("s.1" :> <<NF("s"), IX(1)>>)
-            @@ ("s.k" :> <<NF("s"), NF("k")>>) @@ ("s.K" :> <<NF("s"), NF("K")>>)
+            @@ ("s.k" :> <<NF("s"), NF("k")>>) @@ ("s.K" :> <<NF("s"), NF("K")>>) @@ ("s" :> <<NF("s")>>)
+            @@ ("s.0.0" :> <<NF("s"), IX(0), IX(0)>>) @@ ("s.0.1" :> <<NF("s"), IX(0), IX(1)>>)
+            @@ ("s.0.u" :> <<NF("s"), IX(0), NF("u")>>) @@ ("s.0.v" :> <<NF("s"), IX(0), NF("v")>>)
 TypeOK == shp \in Shapes
 ==========================================================================
